@@ -49,6 +49,12 @@ def routes_for(z):
             lab = sym + d + suf
             r.append(("label", (lambda lab=lab: Element[lab])))
             r.append(("from_label", (lambda lab=lab: Element.from_label(lab))))
+        # pairwise: a label (symbol + digits / suffix) TOGETHER WITH the white space a line read from a file carries (newline, CRLF,
+        # blanks and tab on either side)
+        for wname, fmt_ in (("newline", "%s\n"), ("crlf", "%s\r\n"), ("trailing-blanks", "%s \t"), ("newline-middle", "%s\nx")):
+            r.append(("label+%s" % wname, (lambda d=d, fmt_=fmt_: Element[fmt_ % (sym + d)])))
+            if True:      # (LEADING blanks before a label are not accepted by the unchanged library on either route, and are not demanded)
+                r.append(("from_label+%s" % wname, (lambda d=d, fmt_=fmt_: Element.from_label(fmt_ % (sym + d + "A")))))
         r.append(("LABEL", (lambda d=d: Element[sym.upper() + d])))
         r.append(("from_label-UPPER", (lambda d=d: Element.from_label(sym.upper() + d + "_F2____1____i"))))
         r.append(("from_label-lower", (lambda d=d: Element.from_label(sym.lower() + d + "A"))))
